@@ -2,3 +2,5 @@ import LhasaV.Props.C08
 open LhasaV.Props.C08
 #print axioms header_no_fault
 #print axioms header_consumes_within
+#print axioms leadin_no_fault
+#print axioms reader_no_uaf
